@@ -394,7 +394,10 @@ func (cw *chunkWriter) writeHeader(p []byte) {
 
 	if w.req.Method == "HEAD" || code == bfe_http.StatusNotModified {
 		// do nothing
-	} else if code == bfe_http.StatusNoContent {
+	} else if code == bfe_http.StatusNoContent || (code >= 100 && code <= 199) {
+		// Must not have body (RFC 7230 section 3.3.3): never announce chunked
+		// framing, the client would take the terminating chunk for the start of
+		// the next response.
 		delHeader("Transfer-Encoding")
 	} else if hasCL {
 		delHeader("Transfer-Encoding")
